@@ -104,3 +104,17 @@ func (eng *Engine) renamesOf(fn *ssa.Function) map[string][]string {
 	}
 	return r
 }
+
+// recordedHas: did fn declare a variable of this name when its contract was recorded?
+func (eng *Engine) recordedHas(fn *ssa.Function, name string) bool {
+	rec, ok := eng.recordedLocals[eng.fnKey(fn)]
+	if !ok {
+		return true // nothing recorded: keep the ordinary lookup order
+	}
+	for _, d := range rec {
+		if d.Name == name {
+			return true
+		}
+	}
+	return false
+}
